@@ -1341,6 +1341,10 @@ func traceVerbatim(root ssa.Value, allow func(*ssa.Call) (ssa.Value, bool)) (bad
 				case *ssa.Call:
 					if next, ok := allow(t); ok {
 						trace(next)
+					} else if rets := helperReturns(t, x.Index); rets != nil {
+						for _, rv := range rets {
+							trace(rv)
+						}
 					} else {
 						bad = "the value passes through " + core.InfoOf(&t.Call).Full() + " on its way to the output"
 					}
@@ -1364,6 +1368,10 @@ func traceVerbatim(root ssa.Value, allow func(*ssa.Call) (ssa.Value, bool)) (bad
 				}
 				if next, ok := allow(x); ok {
 					trace(next)
+				} else if rets := helperReturns(x, 0); rets != nil {
+					for _, rv := range rets {
+						trace(rv)
+					}
 				} else {
 					bad = "the value passes through " + core.InfoOf(&x.Call).Full() + " on its way to the output"
 				}
@@ -1471,4 +1479,21 @@ func updatesMapParam(fn *ssa.Function, par *ssa.Parameter) bool {
 		}
 	})
 	return found
+}
+
+// helperReturns: call is a static call of a module function with a body; the
+// values it returns in position idx (nil if it is not such a call). A value
+// computed by an extracted helper is traced into the helper.
+func helperReturns(call *ssa.Call, idx int) []ssa.Value {
+	h := call.Call.StaticCallee()
+	if h == nil || h.Blocks == nil || h.Pkg == nil || h.Parent() != nil || !strings.HasPrefix(h.Pkg.Pkg.Path(), core.ModulePath) {
+		return nil
+	}
+	var out []ssa.Value
+	for _, r := range core.Returns(h) {
+		if idx < len(r.Results) {
+			out = append(out, r.Results[idx])
+		}
+	}
+	return out
 }
